@@ -71,6 +71,16 @@ def _check_call(rec, family, case, gname, fn, p, k, wr, rs):
         rec.exception_violation("C11:%s-exception" % gname, family, sub, "%s raised %s" % (gname, type(e).__name__), e)
         return None
     rec.count("calls:" + gname)
+    if gname == "dag_avg_deg" and rs % 11 == 0:
+        import io, contextlib
+        try:
+            with contextlib.redirect_stdout(io.StringIO()):
+                Wd = fn(*args, debug=True, **kw)
+            rec.count("keyword:debug=True")
+            if not (isinstance(Wd, np.ndarray) and np.array_equal(Wd, W)):
+                rec.violation("C11:dag_avg_deg-debug-changes-result", family, sub, "dag_avg_deg(debug=True) returns a different graph for the same seed")
+        except Exception as e:
+            rec.exception_violation("C11:dag_avg_deg-debug-exception", family, sub, "dag_avg_deg(debug=True) raised", e)
     if not isinstance(W, np.ndarray) or W.shape != (p, p):
         rec.violation("C11:%s-shape" % gname, family, sub, "returned %r of shape %r" % (type(W).__name__, getattr(W, "shape", None)))
         return None
